@@ -109,12 +109,22 @@ def run(chk, replay=None):
     small.sort(key=lambda s: -len({d["spin2"] for n, d in s["particles"].items() if n.startswith("f")}))
     small = small[: (3 if tier == "thorough" else 1)]
     numeric_specs = [tuple(x) for x in numeric_reactions] + [("synth", s) for s in small]
+    # a fixed minimal reaction with a massless final-state particle with spin (the listed axis-angle finding)
+    from qrules.topology import create_isobar_topologies
+
+    t3 = create_isobar_topologies(3)[0]
+    photon = {"formalism": "helicity", "particles": {"A": {"spin2": 0, "mass": 3.0}, "f0": {"spin2": 0, "mass": 0.14}, "f1": {"spin2": 2, "mass": 0.0},
+                                                     "f2": {"spin2": 0, "mass": 0.5}, "R": {"spin2": 2, "mass": 1.3}},
+              "transitions": [{"topology": t3, "states": {-1: ["A", 0], 0: ["f0", 0], 3: ["R", 0], 1: ["f1", h], 2: ["f2", 0]},
+                               "nodes": {0: {"L2": U.NONE, "S2": U.NONE, "eta": 0}, 1: {"L2": U.NONE, "S2": U.NONE, "eta": 0}}} for h in (-2, 2)],
+              "meta": {"nfs": 3, "helset": "full", "tree": [], "ntop": 1}}
+    numeric_specs.append(("synth", photon))
     nj = []
     for spec in numeric_specs:
         reaction = observe.load(spec)
         ev = observe.events_for(reaction, 24, nrng)
         als = ["none", "axis", "dpd1"] + (["dpd2", "dpd3"] if tier == "thorough" else [["dpd2"], ["dpd3"]][chk.seed % 2])
-        if spec[0] == "synth" and tier == "quick":
+        if spec[0] == "synth" and tier == "quick" and spec[1] is not photon:
             als = [a for a in als if a != "axis"]  # the axis-angle model of a synthetic reaction does not fit the quick budget
         for al in als:
             jobs.append((spec, al, ev, [], chk.seed, al != "none"))
